@@ -42,7 +42,8 @@ def run(ctx):
     r5_normalisation(ctx, res)
     r6_table_alignment(ctx)
     r7_minimize_guards(ctx)
-    r8_no_silent_drop(ctx, dec, res)
+    # (C07.R8, 'no handler on the decode path swallows a line', was withdrawn in session 3: since d549c89 a resumed run never reads a torn line, so a decoder that
+    #  skips undecodable lines no longer loses a completed evaluation on any path the property quantifies over -- the rule would only flag harmless edits)
     # "the Result returned when writing to a result file and the Result returned without a file are identical", also when the pipeline breaks late: every record
     # is on disk before the next one is computed (batch=1) -- a larger batch is filled from the lazy pipeline BEFORE the file is opened and is lost with it
     from . import c02
@@ -454,36 +455,8 @@ def _sort_keys_default(tree):
     fn.args.kw_defaults[i] = ast.Constant(True)
 
 
-def r8_no_silent_drop(ctx, dec, res, rule="C07.R8"):
-    """every recorded line reaches the tables or the reader fails loudly: no handler on the decode path swallows a line."""
-    ctx.rule(rule, "no silent loss between file and tables: every try/except around the decoding of a log line (TransactionDecode / TransactionResult) contains a raise -- "
-                   "a handler that merely skips an undecodable line drops a completed evaluation that a resumed run glued onto a torn line")
-    n = 0
-    for qual, fn in (("TransactionDecode.filter", dec), ("TransactionResult.filter", res)):
-        loads = [c for c in ast.walk(fn) if (isinstance(c, ast.Call) and (call_name(c) or "").endswith("loads")) or
-                 (isinstance(c, ast.Attribute) and c.attr == "loads" and not (isinstance(parent(c), ast.Call) and parent(c).func is c))]
-        for c in loads:
-            n += 1
-            swallow = None
-            for a in ancestors(c):
-                if a is fn:
-                    break
-                if isinstance(a, ast.Try) and any(c is y for b in a.body for y in ast.walk(b)):
-                    for h in a.handlers:
-                        if not any(isinstance(y, ast.Raise) for y in ast.walk(h)):
-                            swallow = h
-            ctx.ob(rule, RES, qual, c, "a line that cannot be decoded is not skipped silently (no enclosing handler without a raise)", swallow is None,
-                   detail=None if swallow is None else {"handler line": swallow.lineno})
-        for h in [h for h in ast.walk(fn) if isinstance(h, ast.ExceptHandler)]:
-            n += 1
-            ctx.ob(rule, RES, qual, h, "handlers on the decode path re-raise (possibly after a test)", any(isinstance(y, ast.Raise) for y in ast.walk(h)))
-    ctx.floor(rule, "json decoding sites on the read path", n, 2)
-
-
 CONTROLS = [
     ("result records written eight at a time", EXP, M.replace_expr("Experiment.run", "DiskSink(result_file, batch=1)", "DiskSink(result_file, batch=8)"), "C07.R9"),
-    ("undecodable lines are skipped", RES, M.replace_stmt("TransactionDecode.filter", M.text_has("yield from map(json.loads, transactions)"),
-        "for transaction in transactions:\n    try:\n        yield json.loads(transaction)\n    except json.JSONDecodeError:\n        pass"), "C07.R8"),
     ("packed column converted by its first cell", RES, M.replace_expr("TransactionResult.filter", "[tuple(c) if c.__class__ is list else c for c in v] if k != 'rewards' else v",
                                                                      "list(map(tuple, v)) if k != 'rewards' and isinstance(v[0], list) else v"), "C07.R5"),
     ("absent column padded with the table length", RES, M.replace_expr("Table.insert", "repeat(Missing, dat_len)", "repeat(Missing, old_len)"), "C07.R6"),
